@@ -283,6 +283,12 @@ class Encoder:
         out = {}
         for key in set(a) | set(b):
             x, y = a.get(key), b.get(key)
+            if key == "__ptrs__":
+                sh = dict(y or {})
+                for kk, pv in (x or {}).items():
+                    sh[kk] = self.ite(c, pv, sh[kk]) if kk in sh and sh[kk] is not pv else pv
+                out[key] = sh
+                continue
             if x is None:
                 out[key] = y
             elif y is None:
@@ -727,6 +733,12 @@ class Encoder:
             if not isinstance(addr, Ptr) or addr.region is None:
                 raise EncError("load through a pointer without provenance at %s" % where)
             m, val = self.load(m, addr, nb)
+            if isinstance(ins.ty, ir.PtrTy):
+                # pointer reload: provenance from the shadow map (pointer stores at concrete offsets), else absolute
+                off = z3.simplify(addr.off)
+                key = (addr.region.name, off.as_long()) if z3.is_bv_value(off) else None
+                sh = m.get("__ptrs__", {})
+                val = sh[key] if key in sh else Ptr(None, val)
             if self.is_bool(ins.ty):
                 val = z3.Extract(0, 0, val) == bv(1, 1)
             elif w != nb * 8:
@@ -738,6 +750,17 @@ class Encoder:
             val = self.const(ins.ty, ins.a, env)
             if isinstance(val, tuple):
                 raise EncError("aggregate store")
+            if isinstance(val, Ptr):
+                pval = val
+                val = val.addr()
+                addr0 = self.const(ir.PtrTy(ins.ty), ins.ptr, env)
+                off = z3.simplify(addr0.off) if isinstance(addr0, Ptr) else None
+                if off is None or not z3.is_bv_value(off) or addr0.region is None:
+                    raise EncError("store of a pointer value at a symbolic address at %s" % where)
+                m = dict(m)
+                sh = dict(m.get("__ptrs__", {}))
+                sh[(addr0.region.name, off.as_long())] = pval
+                m["__ptrs__"] = sh
             if self.is_bool(ins.ty):
                 val = b2bv(val, 8)
             w = val.size()
@@ -747,8 +770,6 @@ class Encoder:
             self.safety.append(("bounds:%s:store%d" % (where, nb), "bounds", z3.And(r, z3.Not(self.in_bounds(addr, nb, True)))))
             if not isinstance(addr, Ptr) or addr.region is None:
                 raise EncError("store through a pointer without provenance at %s" % where)
-            if isinstance(val, Ptr):
-                raise EncError("store of a pointer value at %s" % where)
             m = self.store(m, addr, val, nb)
         elif op == "extractvalue":
             v = self.const(ins.agg_ty, ins.a, env)
